@@ -119,6 +119,10 @@ pub struct EngineCfg {
     pub final_reopen_verify: bool,
     /// every reopen asks for this many times the initial page count (must have no effect)
     pub reopen_np_factor: usize,
+    /// C16: every reopen asks for another initial page count of the option set (which the
+    /// documentation says has no effect on an existing database)
+    pub reopen_np_cycle: Option<u64>,
+    opens: u64,
     /// reported oracle ids; a failure of any other oracle ends the run quietly
     pub oracles: Vec<&'static str>,
     pub max_steps: usize,
@@ -148,6 +152,8 @@ impl EngineCfg {
             record_calls: false,
             final_reopen_verify: false,
             reopen_np_factor: 1,
+            reopen_np_cycle: None,
+            opens: 0,
             oracles: vec![],
             max_steps: 20_000,
         }
@@ -526,7 +532,11 @@ impl<'a> Engine<'a> {
         let before = simos::log_len();
         let existed = simos::bypass(|| std::path::Path::new(&self.cfg.path).exists());
         simos::mark(Marker::OpenCall);
-        let np = if self.opened_once { self.cfg.num_pages * self.cfg.reopen_np_factor.max(1) } else { self.cfg.num_pages };
+        let mut np = if self.opened_once { self.cfg.num_pages * self.cfg.reopen_np_factor.max(1) } else { self.cfg.num_pages };
+        if let (true, Some(c)) = (self.opened_once, self.cfg.reopen_np_cycle) {
+            np = [4usize, 32, 1000][((c % 3) + self.cfg.opens) as usize % 3];
+        }
+        self.cfg.opens += 1;
         self.opened_once = true;
         let (ps, strict, pop) = (self.cfg.pagesize, self.cfg.strict, self.cfg.populate);
         let path = self.cfg.path.clone();
@@ -811,9 +821,35 @@ impl<'a> Engine<'a> {
                 Step::CloseReader { idx } => self.close_reader(readers, *idx),
                 _ => {
                     let before = if self.cfg.c06 { Some(view.clone()) } else { None };
+                    // read-modify-write bracket (sweep mode): a point lookup of the very key a
+                    // mutator aims at, immediately before and immediately after it, so that
+                    // whatever a lookup leaves behind (a position, a memo) meets the mutation
+                    let bracket: Option<Step> = match step.target() {
+                        Some((p, k)) if self.cfg.sweep && rw && step.is_mutator() && !p.is_empty() => Some(Step::Get { path: p.clone(), key: k.clone() }),
+                        _ => None,
+                    };
+                    if let Some(g) = &bracket {
+                        let (got, exp) = self.exec(&tx, &mut cache, &mut view, g, rw);
+                        hash_obs(&mut self.trace, &got, g);
+                        self.judge(g, &got, &exp, rw);
+                        if self.stop {
+                            break;
+                        }
+                    }
                     let (got, exp) = self.exec(&tx, &mut cache, &mut view, &step, rw);
                     hash_obs(&mut self.trace, &got, &step);
                     self.judge(&step, &got, &exp, rw);
+                    if let (Some(Step::Get { path, key }), false) = (&bracket, self.stop) {
+                        for g in [Step::Get { path: path.clone(), key: key.clone() }, Step::GetKv { path: path.clone(), key: key.clone() }] {
+                            let (got, exp) = self.exec(&tx, &mut cache, &mut view, &g, rw);
+                            hash_obs(&mut self.trace, &got, &g);
+                            self.judge(&g, &got, &exp, rw);
+                            if self.stop {
+                                break;
+                            }
+                        }
+                        self.out.stats.probe("rmw_brackets");
+                    }
                     if step.is_mutator() && rw {
                         mutated = true;
                         if let Some(p) = step.path() {
